@@ -54,6 +54,8 @@ type Interp struct {
 	files              *fileTable
 	hostFns            map[string]*ssa.Function
 	hasPrev            bool
+	curInstr           ssa.Instruction
+	curFn              *ssa.Function
 }
 
 type deferred struct {
@@ -526,6 +528,7 @@ func runFrame(fr *frame) {
 		nonPhis := executePhis(fr)
 		for _, instr := range nonPhis {
 			i.path.steps++
+			i.curInstr, i.curFn = instr, fr.fn
 			if i.path.steps > i.cfg.MaxSteps {
 				panic(pathAbort{"steps", fmt.Sprintf("step bound %d exceeded in %s", i.cfg.MaxSteps, fr.fn)})
 			}
